@@ -1,10 +1,12 @@
 #!/bin/bash
 # usage: tools/run_all.sh [tier] [ids...]  -- runs the registered checks one after the other, prints one line per check
 tier=${1:-quick}; shift
-ids=${@:-$(python3 -c "import json;print(' '.join(c['property_id'] for c in json.load(open('/verif/MANIFEST.json'))['checks']))")}
-cd /verif
+here0="$(cd "$(dirname "${BASH_SOURCE[0]}")/.." && pwd)"; cd "$here0"
+ids=${@:-$(python3 -c "import json;print(' '.join(c['property_id'] for c in json.load(open('MANIFEST.json'))['checks']))")}
+here="$(cd "$(dirname "${BASH_SOURCE[0]}")/.." && pwd)"; cd "$here"
+logdir=${RUN_ALL_LOGDIR:-/tmp}
 for id in $ids; do
   s=$(date +%s)
-  ./check $id --tier $tier > /tmp/run_all_$id.log 2>&1; rc=$?
-  echo "$id exit=$rc $(($(date +%s)-s))s $(grep -c '^VIOLATION' /tmp/run_all_$id.log) violations, $(grep -c '^KNOWN-FINDING' /tmp/run_all_$id.log) known | $(grep "^$id tier" /tmp/run_all_$id.log | cut -c1-160)"
+  ./check $id --tier $tier > $logdir/run_all_${tier}_$id.log 2>&1; rc=$?
+  echo "$id exit=$rc $(($(date +%s)-s))s $(grep -c '^VIOLATION' $logdir/run_all_${tier}_$id.log) violations, $(grep -c '^KNOWN-FINDING' $logdir/run_all_${tier}_$id.log) known | $(grep "^$id tier" $logdir/run_all_${tier}_$id.log | cut -c1-160)"
 done
